@@ -223,9 +223,13 @@ end PebblesVerif.Errors
 namespace PebblesVerif.GatewayFlow
 
 /-- the statement order of `queryHandler`'s closure is the one the model was written for, every
-    statement was recognised, and `Plan` / `getQueryers` / `Execute` are called nowhere else in it -/
+    statement was recognised, and `Plan` / `getQueryers` / `Execute` are called nowhere else in it.
+    The step `applyDefaults` (filling in the client's declared variable defaults; its presence is
+    C02's obligation, `Gen.Vars`) makes no call and is optional HERE; where it stands matters — it
+    dereferences the selected operation — and that is decided by `C10_flow_total` on the sequence
+    as it is. -/
 theorem C10_flow_facts :
-    Gen.GatewayFlow.flow = Gen.GatewayFlow.expected ∧ Gen.GatewayFlow.recognised = true
+    Gen.GatewayFlow.flow.filter (· != "applyDefaults") = Gen.GatewayFlow.expected ∧ Gen.GatewayFlow.recognised = true
     ∧ Gen.GatewayFlow.strayCalls = 0 := by decide
 
 /-- **Validation dominates planning and execution**: an operation that does not validate is answered
@@ -261,5 +265,9 @@ example : (handle ⟨true, true, true, false⟩) = (.executed, ⟨true, true, tr
     check is tested with) an invalid operation makes the closure panic on the nil document -/
 example : (run ⟨false, false, false, false⟩ ["loadQuery", "selectOperation", "plan", "return-if-invalid"] {}).1
     = .panic "nil document dereferenced (query.Operations)" := by decide
+
+/-- the optional step is position-sensitive: before the `operation == nil` return it dereferences nil -/
+example : (run ⟨true, false, false, false⟩ ["loadQuery", "return-if-invalid", "selectOperation", "applyDefaults",
+    "return-if-no-operation"] {}).1 = .panic "nil operation dereferenced (operation.VariableDefinitions)" := by decide
 
 end PebblesVerif.GatewayFlow
